@@ -822,14 +822,16 @@ func (e *Exec) convert(st *State, x *ssa.Convert) Value {
 	if fb, ok := fu.(*types.Basic); ok && fb.Info()&types.IsString != 0 {
 		if ts, ok := tu.(*types.Slice); ok {
 			if w, _, ok := intInfo(ts.Elem()); ok && w == 8 {
+				// the bytes of a string are the sequence str_bytes(s); the slice is
+				// a view of that term, so seq([]byte(s)) is the term itself
 				s := v.(Scalar).T
-				ln := c.App("str_len", smt.BV(64), s)
+				sb := e.strBytes(s)
+				ln := c.App("seq_len", smt.BV(64), sb)
 				o := e.newLocal(mkRegionType(ts.Elem()), "bytes("+x.X.Name()+")")
 				el := ts.Elem()
 				st.mem[o] = &ArrV{Elem: el, N: -1, Read: func(i *smt.Term) Value {
-					return Scalar{T: c.App("str_at", smt.BV(8), s, i), Typ: el}
+					return Scalar{T: c.App("seq_at8", smt.BV(8), sb, i), Typ: el}
 				}}
-				e.addAxioms(c.BVSle(bv64(c, 0), ln), c.BVSle(ln, c.BVC(maxLen, 64)))
 				return &SliceV{Elem: el, Len: ln, Cap: ln, Alts: []SliceAlt{{Cond: c.True(), Loc: &Loc{Obj: o}, Off: bv64(c, 0)}}}
 			}
 		}
